@@ -25,6 +25,11 @@ func (m *MdnsManager) VerifStartWithProvider(cb api.MdnsReportInterface, provide
 	return nil
 }
 
+// VerifEntries returns a copy of the manager's current table of visible services
+func (m *MdnsManager) VerifEntries() map[string]*api.MdnsEntry {
+	return m.copyMdnsEntries()
+}
+
 // VerifResolveCB returns the callback the manager hands to its provider
 func (m *MdnsManager) VerifResolveCB() api.MdnsResolveCB {
 	return m.processMdnsEntry
